@@ -271,6 +271,24 @@ func (c *ctx) checkReuse(s *spec, a, b interface{}, viaSetters bool) {
 	if cons != len(eb) {
 		rep.Fail("property", s.name+":consumed", fmt.Sprintf("decoding into a used object consumed %d of %d bytes", cons, len(eb)), rc)
 	}
+	// the model's readInto (assigned fields over the existing object; ProfilePack: fresh transaction)
+	body := eb
+	switch s.fam {
+	case "step", "svc":
+		body = eb[1:]
+	case "pack":
+		body = eb[headerLen(b):]
+	}
+	c.ask(fmt.Sprintf("RI %s %s %s", s.name, recText(prior), vh.Hex(body)), func(ans string) {
+		if !strings.HasPrefix(ans, "ok ") {
+			rep.Fail("correspondence", s.name+":readinto-model", "model: "+vh.Clip(ans, 60)+" where the implementation decodes into the used object", rc)
+			return
+		}
+		parts := strings.Split(ans, " ")
+		if bad := diffFields(parseRec(parts[1]), got); len(bad) > 0 || parts[2] != "0" {
+			rep.Fail("correspondence", s.name+":readinto-fields", fmt.Sprintf("model and implementation leave different objects after decoding into a used one: %s (model rest %s)", vh.Clip(strings.Join(bad, ","), 80), parts[2]), rc)
+		}
+	})
 }
 
 func txOf(o interface{}) *service.TxRecord { return o.(*pack.ProfilePack).Transaction }
